@@ -82,9 +82,12 @@ class BodyPart(multipart.BodyPart):
     async def get_data(self) -> bytes:  # type: ignore[override]
         if self._data is None:
             max_size = self._parse_options.max_body_part_buffer_size + 1
-            self._data = await self.stream.read(max_size)
-            if len(self._data) >= max_size:
+            data = await self.stream.read(max_size)
+            if len(data) >= max_size:
                 raise MultipartParseError(description='body part is too large')
+
+            # NOTE: Only cache content that has passed the size check.
+            self._data = data
 
         return self._data
 
